@@ -101,7 +101,8 @@ def run(ctx):
         else:
             o = ev.get("obs", {})
             sig = "step:%s:%s:%s" % (surf, el_class(ev.get("el", {})) if surf in ("rtsp", "sdp") else ev.get("el", {}).get("k"),
-                                     "panic" if o.get("panic") else ("closed" if not o.get("alive") else "codes"))
+                                     "panic" if o.get("panic") else ("note_" + o["note"].split(" ")[0].rstrip(":") if surf == "pst" and o.get("note")
+                                                                     else ("closed" if not o.get("alive") else "codes")))
             text = "step %s observed %s" % (json.dumps(ev.get("el"))[:300], json.dumps(o))
         E.report(ctx, sig, text, {"scenario": tr[0], "event": ev})
     ctx.assumptions += ["independent encoders harness/proj/surf.go, surf2.go (RTP/RTCP, RFC 6184/7798/3640 payloads, PS elements, SDP, "
